@@ -20,6 +20,25 @@ _eni.ensures.update({
 
 BETA = "'biogeme.expressions.beta_parameters.Beta'"
 
+# round 3 (m4): WHICH names are numbered.  The abstract contract of the virtual collector gets one more (assumed) clause: the keys
+# of the dictionary it returns are the names in the uninterpreted relation c03m4_reports(formula, kind, name); prepare is then
+# obliged to put every name reported by every formula into the table of its kind (a formula whose dictionary is dropped, or
+# collected into the wrong accumulator, leaves its parameters unnumbered) and nothing else.
+_doe = REGISTRY.contracts['biogeme.expressions.base_expressions.Expression.dict_of_elementary_expression']
+_doe.ensures.update({'keys_are_the_reported_names': "forall(lambda x: (x in result) == c03m4_reports(self, the_type, x), ty='str')"})
+_TY = 'TypeOfElementaryExpression.'
+
+
+def _collected(table, kind, lim):
+    return (f"forall(lambda q: forall(lambda x: implies(c03m4_reports(self.expressions[q], {_TY}{kind}, x), x in {table}), ty='str'), 0, {lim})")
+
+
+def _nothing_else(table, kind, lim):
+    return (f"forall(lambda x: implies(x in {table}, exists(lambda q: c03m4_reports(self.expressions[q], {_TY}{kind}, x), 0, {lim})), ty='str')")
+
+
+_KINDS = {1: ('free_betas', 'FREE_BETA'), 2: ('fixed_betas', 'FIXED_BETA'), 3: ('random_variables', 'RANDOM_VARIABLE'), 4: ('draws', 'DRAWS')}
+
 
 def _tuple_clauses(fld):
     nm, ix = f'self.{fld}.names', f'self.{fld}.indices'
@@ -42,7 +61,11 @@ contract(Q + 'IdManager.prepare', 'C03', self_class='IdManager', label='IdManage
                    'self.free_betas_values', 'self.fixed_betas_values',
                    '*.theDraws', '*.typesOfDraws', '*.number_of_draws'],
          may_raise=['BiogemeError'],
+         invariants={k: {'clauses': {'collected_so_far': _collected('expr', kind, '_k'), 'nothing_else_so_far': _nothing_else('expr', kind, '_k')}}
+                     for k, (fld, kind) in _KINDS.items()},
          ensures={
+             **{f'{fld}_every_reported_name_is_numbered': _collected(f'self.{fld}.expressions', kind, 'len(self.expressions)') for fld, kind in _KINDS.values()},
+             **{f'{fld}_only_reported_names_are_numbered': _nothing_else(f'self.{fld}.expressions', kind, 'len(self.expressions)') for fld, kind in _KINDS.values()},
              **_tuple_clauses('free_betas'), **_tuple_clauses('fixed_betas'),
              'n_free': f'self.number_of_free_betas == len({FN})',
              'bounds_len': f'len(self.bounds) == len({FN})',
